@@ -101,6 +101,9 @@ func (o op) kindName() string {
 	case "lie":
 		return fmt.Sprintf("lie:%s:%s", tok, ringName(o.Ring))
 	case "hostile":
+		if strings.HasPrefix(o.Var, "ain-") {
+			return "hostile:" + o.Var
+		}
 		return fmt.Sprintf("hostile:%s:%s", o.Var, ringName(o.Ring))
 	}
 	return o.Kind
@@ -602,7 +605,11 @@ func (x *bctx) buildAin(o op) (*txMeta, error) {
 	var tx *types.UTXOTransaction
 	x.w.seeded(func() {
 		if tok == coinTok {
-			tx, _, err = types.NewAinTransaction(&types.AccountSourceEntry{From: from.Addr, Nonce: n, Amount: add(total, fee)}, entries, coinTok, nil)
+			amt := add(total, fee)
+			if o.Kind == "hostile" && o.Var == "ain-fee-uncommitted" {
+				amt = new(big.Int).Set(total) // the constructor sees fee 0; the fee is declared afterwards, on top
+			}
+			tx, _, err = types.NewAinTransaction(&types.AccountSourceEntry{From: from.Addr, Nonce: n, Amount: amt}, entries, coinTok, nil)
 		} else {
 			tx, _, err = types.NewAinTokenTransaction(&types.AccountSourceEntry{From: from.Addr, Nonce: n, Amount: new(big.Int).Set(total)}, entries, tok, fee, nil)
 		}
@@ -637,6 +644,9 @@ func (x *bctx) buildAin(o op) (*txMeta, error) {
 			in.Amount = sub(in.Amount, cut)
 			in.Commit = types.AmountCommit(new(big.Int).Div(in.Amount, rate), in.CF)
 			m.Why = "committed input below outputs + fee"
+		case "ain-fee-uncommitted": // the outputs take the whole input, the fee is only declared
+			tx.Fee = new(big.Int).Set(fee)
+			m.Why = "declared fee is not part of the commitment balance"
 		case "ain-overflow": // 2^64 units more: the commitment arithmetic silently drops what does not fit 8 bytes
 			in.Amount = add(in.Amount, new(big.Int).Mul(new(big.Int).Lsh(bi(1), 64), unit))
 			in.Commit = types.AmountCommit(new(big.Int).Div(in.Amount, rate), in.CF)
